@@ -144,6 +144,7 @@ def main(pid, tier, repo=None):
     ctx = Ctx(pid, tier, configs=("workspace",), repo=repo)
     rule_feed_consumed(ctx)
     rule_carry(ctx)
+    rule_refeed(ctx)
     rule_init_offsets(ctx)
     bs = ctx.prog.crate("jxl_bitstream")
     c10.rule_consumed(ctx, bs)
@@ -161,6 +162,64 @@ def main(pid, tier, repo=None):
         "feed functions, re-storing of the unconsumed remainder on every successful exit of the frame loader, prefix-closedness of "
         "the box-header parser, end-of-input finalisation of auxiliary boxes, and the classification of end-of-data as "
         "need-more-data on every wrapping route. Equality of the two executions' results is not decided.")
+
+
+def rule_refeed(ctx):
+    """the library's own read loops honour the re-feed contract of feed_bytes"""
+    rid = "R-REFEED"
+    ctx.rule(rid, "feed_bytes returns how many bytes it consumed and requires the rest to be offered again, first, in the next call.  In "
+                  "every function of jxl_oxide that calls UninitializedJxlImage::feed_bytes / JxlImage::feed_bytes on a window of a "
+                  "buffer it also refills (std::io::Read::read), every path from a successful feed to the next read or feed passes "
+                  "through a call that moves the unconsumed tail to the front (copy_within; drain / rotate_left / split_off accepted): "
+                  "otherwise the next read lands behind stale bytes and a box header that straddles a read boundary is parsed from "
+                  "garbage")
+    ox = ctx.prog.crate("jxl_oxide")
+    MOVE = ("copy_within", "drain", "rotate_left", "split_off")
+    n = 0
+    for f in ox.fn_list:
+        if f.kind == "Promoted":
+            continue
+        feeds, reads, moves = [], set(), set()
+        for b, t in f.calls():
+            c = callee(t)
+            if not c:
+                continue
+            nm = c["fn"]
+            if nm.endswith("UninitializedJxlImage::feed_bytes") or nm.endswith("JxlImage::feed_bytes"):
+                feeds.append((b, t))
+            elif nm.endswith("io::Read::read") or nm.endswith("io::Read::read_exact") or nm.endswith("io::Read::read_buf"):
+                reads.add(b)
+            elif nm.split("::")[-1] in MOVE and ("slice" in nm or "Vec" in nm or "vec" in nm):
+                moves.add(b)
+        if not feeds or not reads:
+            continue
+        ctx.seen(f)
+        targets = reads | {b for b, _ in feeds}
+        for b, t in feeds:
+            n += 1
+            key = "%s|bb-order%d" % (f.path, sorted(x for x, _ in feeds).index(b))
+            if t[4] is None:
+                continue
+            # breadth-first from the normal successor, not entering a block that moves the tail
+            seen, todo, hit = set(), [t[4]], None
+            while todo:
+                x = todo.pop()
+                if x in seen or f.is_cleanup(x):
+                    continue
+                seen.add(x)
+                if x in moves:
+                    continue
+                if x in targets:
+                    hit = x
+                    break
+                todo.extend(f.succs(x))
+            if hit is None:
+                ctx.ok(rid, key, "the tail is moved to the front before the next read / feed", nontrivial=True, fn=f)
+            else:
+                ctx.bad(rid, key, "after this feed_bytes call the next read / feed (line %d) can be reached without moving the unconsumed tail "
+                        "to the front of the buffer" % pos_line(f.term_pos(hit)), fn=f, pos=t[-2])
+    ctx.count(rid + ".feed-sites", n)
+    ctx.floor(rid + ".feed-sites", 4)
 
 
 TRY_INIT = "jxl_oxide::UninitializedJxlImage::try_init"
